@@ -4,6 +4,12 @@ Pure world: the real `PGPWordList`, `validate_nameplate`, `validate_code`, and a
 workers are the real `Code`, `Allocator`, `Input` (+ `Helper`) wired to recording stand-ins for
 Nameplate / Key / Lister / RendezvousConnector (substituted inside this process only).
 `os.urandom` as seen by `_wordlist` is replaced by a scripted byte feeder for the duration of a call.
+
+Sessions: the objects of one case live for the whole case (one `PGPWordList` per `gcseq` object, one Input/Helper/
+CodeInputter per client of an `api` case, `new` = another client in the same process), and EVERY query of a session is
+judged by the oracle and compared with the model's pure answer (`gc`, `gcs`, `h wc`, `rl tab` lines) — so an implementation
+that remembers answers under a key that forgets part of the typed text, or that shares an iterator between objects, cannot
+agree with the model.  `shrink` only proposes cases that fail when run alone in a fresh interpreter.
 """
 import re
 import types
@@ -46,7 +52,13 @@ RULE = ("all 256x2 byte->word lookups through the real choose_words under a scri
         "with partial words, stray hyphens, upper case and non-ASCII; API histories over Boss.allocate_code/set_code/"
         "input_code, Allocator connected/lost/rx_allocated, Input got_nameplates/got_wordlist and all Helper calls in "
         "legal and illegal orders; readline edit histories on the real CodeInputter (TAB/Return on lines whose nameplate is "
-        "extended, shortened, replaced or kept after it was committed); non-trivial = every case (each reaches a modelled branch); distinct = distinct "
+        "extended, shortened, replaced or kept after it was committed); edit SESSIONS on one wordlist object, one Input/Helper "
+        "and one CodeInputter: ask, go back and change an earlier word (same last partial word, same number of hyphens, at "
+        "word positions 1-4), retype the last letters, change only the case / the expected number of words, return to an "
+        "earlier line, ask again — every answer of the session is judged by the oracle and compared with the model's pure "
+        "answer; several clients (fresh Boss/Input/CodeInputter, `new`) in one case typing the same words under different "
+        "nameplates; allocation sessions with odd and even lengths on several wordlist objects and several clients in one "
+        "case; non-trivial = every case (each reaches a modelled branch); distinct = distinct "
         "canonical output traces")
 
 ODD = [_wordlist.byte_to_odd_word[bytes([i])].lower() for i in range(256)]
@@ -401,10 +413,250 @@ def rl_history(rng):
     return ops
 
 
+def other_word(rng, parity, like=None, same_len=False):
+    lst = ODD if parity % 2 == 0 else EVEN
+    if same_len and like is not None:
+        c = [w for w in lst if len(w) == len(like) and w != like]
+        if c:
+            return rng.choice(c)
+    return rng.choice([w for w in lst if w != like])
+
+
+def edit_session(rng, raw=True, k=None):
+    """one interactive session on ONE wordlist object: ask, go back and change something EARLIER on the line (or the
+    letters / the case of the last word, or the expected number of words), ask again.  Returns the queries
+    [text, num_words] and the names of the edits made."""
+    if k is None:
+        k = rng.choice([1, 1, 2, 2, 3, 4])
+    ws = [rand_word(rng, i) for i in range(k)]
+    target = rand_word(rng, k)
+    q = target[:rng.choice([0, 1, 2, 2, 3, len(target)])]
+    nw = rng.choice([2, 2, k + 1, k + 2, k]) if raw else 2
+    states = [(list(ws), q, nw)]
+    qs = [["-".join(ws + [q]), nw]]
+    edits = []
+    for step in range(rng.choice([1, 2, 2, 3, 4, 6])):
+        ws, q, nw = list(states[-1][0]), states[-1][1], states[-1][2]
+        r = rng.random()
+        if step == 0 and rng.random() < 0.6:
+            r = 0.0
+        if r < 0.5 and ws:          # an earlier word replaced: same last partial word, same number of hyphens
+            j = rng.randrange(len(ws))
+            rr = rng.random()
+            if rr < 0.45:
+                ws[j] = other_word(rng, j, ws[j], same_len=True)      # … and the same length of the line
+                edits.append("earlier-word-same-length")
+            elif rr < 0.8:
+                ws[j] = other_word(rng, j, ws[j])
+                edits.append("earlier-word")
+            elif rr < 0.9:
+                ws[j] = other_word(rng, j + 1, ws[j])                 # a word of the other list
+                edits.append("earlier-word-wrong-list")
+            else:
+                ws[j] = rng.choice(["", "zzz", ws[j].upper(), ws[j][:-1], "é"])
+                edits.append("earlier-word-junk")
+        elif r < 0.65:              # the last letters retyped
+            t2 = other_word(rng, len(ws), target)
+            q = t2[:len(q)] if rng.random() < 0.7 else t2[:rng.randrange(0, len(t2) + 1)]
+            edits.append("retype-last")
+        elif r < 0.75:              # back to an earlier line
+            ws, q, nw = rng.choice(states)
+            ws = list(ws)
+            edits.append("back")
+        elif r < 0.83 and raw:
+            nw = rng.choice([n for n in [1, 2, 3, 4, 5] if n != nw])
+            edits.append("num-words")
+        elif r < 0.9:               # the same keys with shift/caps-lock in play: asked once, the line stays
+            qs.append([case_variant(rng, "-".join(ws + [q])), nw])
+            edits.append("case")
+            continue
+        else:                       # the same partial word at another position
+            if ws and rng.random() < 0.5:
+                ws = ws[1:]
+            else:
+                ws = [rand_word(rng, 0)] + ws
+            edits.append("shift-position")
+        states.append((ws, q, nw))
+        qs.append(["-".join(ws + [q]), nw])
+    if rng.random() < 0.5:
+        qs.append(list(qs[0]))      # and finally the first line again
+        edits.append("back")
+    return qs, edits
+
+
+def earlier_word_session(k, j, q, nw, variant=0, same_len=False):
+    """the smallest session of the family: the line, the line with word j replaced (by a word of the same length if
+    `same_len`: the line keeps its length), the line again"""
+    ws = [(ODD if i % 2 == 0 else EVEN)[(17 * i + 11 + variant) % 256] for i in range(k)]
+    ws2 = list(ws)
+    lst = ODD if j % 2 == 0 else EVEN
+    ws2[j] = lst[(17 * j + 12 + 5 * variant) % 256]
+    if same_len:
+        ws2[j] = [w for w in lst[(17 * j + 12 + 5 * variant) % 256:] + lst if len(w) == len(ws[j]) and w != ws[j]][0]
+    a, b_ = "-".join(ws + [q]), "-".join(ws2 + [q])
+    return [[a, nw], [b_, nw], [a, nw]]
+
+
+def complete_text(text):
+    """the line with its last partial word completed (if anything completes it)"""
+    count = text.count("-")
+    last = text.rsplit("-", 1)[-1]
+    for w in (ODD if count % 2 == 0 else EVEN):
+        if w.startswith(last):
+            return text[:len(text) - len(last)] + w
+    return text
+
+
+def input_session_ops(rng, front, np, qs, listed=None):
+    """the queries `qs` typed by one user into one Input: through the Helper, or at the readline prompt"""
+    ops = [["input"]]
+    if listed is not None:
+        ops.append(["gotnp", listed])
+    final = complete_text(qs[-1][0])
+    if front == "helper":
+        ops.append(["h", "choosenp", np])
+        late = rng.random() < 0.2          # the first TAB comes before the claim response
+        if not late:
+            ops.append(["gotwl"])
+        for i, (t, _) in enumerate(qs):
+            ops.append(["h", "wc", t])
+            if late and i == 0:
+                ops.append(["gotwl"])
+        ops.append(["h", "choosewords", final])
+    else:
+        if rng.random() < 0.5:
+            ops.append(["rl", "tab", np + "-"])
+        for t, _ in qs:
+            ops.append(["rl", "tab", np + "-" + t])
+        ops.append(["rl", "finish", np + "-" + final])
+    return ops
+
+
+def input_edit_session(rng):
+    qs, edits = edit_session(rng, raw=False)
+    np = str(rng.randrange(1, 200))
+    listed = sorted({np, str(rng.randrange(1, 200))}) if rng.random() < 0.7 else None
+    return input_session_ops(rng, rng.choice(["helper", "rl"]), np, qs, listed)
+
+
+def multi_client_sessions(rng):
+    """several clients in ONE process (a GUI, a daemon, a test-suite): each with its own Boss, Input, wordlist and
+    CodeInputter; more often than not the users type the same words under different nameplates"""
+    ops = []
+    shared, _ = edit_session(rng, raw=False)
+    nps = rng.sample(["4", "12", "7", "41", "123", "9", "30"], 3)
+    for i in range(rng.choice([2, 2, 3])):
+        if i:
+            ops.append(["new"])
+        r = rng.random()
+        if r < 0.6:
+            qs = shared if rng.random() < 0.5 else shared[:rng.randrange(1, len(shared) + 1)]
+        elif r < 0.85:
+            qs, _ = edit_session(rng, raw=False)
+        else:
+            n = rng.choice([1, 2, 3])
+            ops += [["alloc", n], ["connected"], ["rxalloc", nps[i], rand_bytes(rng, n)]]
+            continue
+        ops += input_session_ops(rng, rng.choice(["helper", "rl"]), nps[i], qs)
+    return ops
+
+
+def alloc_sessions(rng):
+    """several allocations, odd and even lengths mixed, one client after the other in one process"""
+    lens = [rng.choice([1, 3, 5]), rng.choice([2, 4]), rng.choice([1, 3]), 2] + [rng.choice([0, 1, 2, 3, 4, 5]) for _ in range(rng.randrange(0, 4))]
+    rng.shuffle(lens)
+    ops = []
+    for i, n in enumerate(lens):
+        if i:
+            ops.append(["new"])
+        pre = rng.random() < 0.5
+        if pre:
+            ops.append(["connected"])
+        ops.append(["alloc", n])
+        if not pre:
+            ops.append(["connected"])
+        ops.append(["rxalloc", str(rng.randrange(1, 500)), rand_bytes(rng, n)])
+    return ops
+
+
+def cw_session(rng):
+    """choose_words calls of odd and even lengths on several wordlist objects, interleaved"""
+    nobj = rng.choice([1, 2, 3])
+    lens = [rng.choice([1, 3, 5, 7]), rng.choice([2, 4]), rng.choice([1, 3]), 2, 1] + [rng.choice([0, 1, 2, 3, 4, 6]) for _ in range(rng.randrange(0, 5))]
+    rng.shuffle(lens)
+    return dict(kind="cwseq", nobj=nobj, calls=[[rng.randrange(nobj), n, rand_bytes(rng, n)] for n in lens])
+
+
+def gc_edit_case(rng):
+    qs, edits = edit_session(rng, raw=True)
+    if rng.random() < 0.25:
+        # a second object with a session of its own, interleaved
+        qs2, e2 = edit_session(rng, raw=True)
+        if rng.random() < 0.5:
+            qs2 = [list(q) for q in qs]       # the same lines in another order
+            rng.shuffle(qs2)
+        mixed = [q + [0] for q in qs] + [q + [1] for q in qs2]
+        order = sorted(range(len(mixed)), key=lambda i: (rng.random(), i))
+        # keep each object's own order
+        it = {0: iter([m for m in mixed if m[2] == 0]), 1: iter([m for m in mixed if m[2] == 1])}
+        out = [next(it[mixed[i][2]]) for i in order]
+        return dict(kind="gcseq", queries=out, edits=sorted(set(edits + e2)) + ["two-objects"])
+    return dict(kind="gcseq", queries=qs, edits=sorted(set(edits)))
+
+
 def cases(rng, tier):
     k = 1 if tier == "quick" else 30
     out = [dict(kind="tables"), dict(kind="nd")]
     # corpus -----------------------------------------------------------------
+    # (the cases in which several queries / several clients / several allocations share one process come first: each is
+    # self-contained, so when an implementation keeps state that outlives its objects the first failing case replays alone)
+    # sessions that go back and edit an EARLIER word: every word position 1-4, every earlier word, three partial words;
+    # through the raw wordlist (two values of num_words), the Helper and the readline front-end
+    import random as _random
+    crng = _random.Random(19)        # fixed: the corpus does not depend on VERIF_SEED
+    for kk in (1, 2, 3, 4):
+        for j in range(kk):
+            for q in ("", "b", "ba"):
+                for nw in (2, kk + 1):
+                    out.append(dict(kind="gcseq", queries=earlier_word_session(kk, j, q, nw), edits=["earlier-word"]))
+                out.append(dict(kind="gcseq", queries=earlier_word_session(kk, j, q, 2, variant=2, same_len=True),
+                                edits=["earlier-word-same-length"]))
+                qs = earlier_word_session(kk, j, q, 2, variant=1, same_len=(j % 2 == 1))
+                for front in ("helper", "rl"):
+                    out.append(dict(kind="api", ops=input_session_ops(crng, front, "4", qs, ["4", "41"])))
+    corpus_sessions = [
+        # the seeded session and its neighbours: typo in the first word, fixed after asking for the second
+        [["armistice-ba", 2], ["article-ba", 2], ["armistice-ba", 2], ["article-baboon-ar", 3], ["article-banjo-ar", 3]],
+        # same length of the line, other letters; same line, other num_words; same last word at another position
+        [["ar", 2], ["ba", 2], ["ar", 3], ["ar", 1], ["armistice-ar", 2], ["x-ar", 2], ["ar", 2]],
+        [["armistice-ba", 2], ["armistice-be", 2], ["armistice-ba", 2], ["Armistice-ba", 2], ["armistice-BA", 2], ["armistice-ba", 2]],
+        [["", 2], ["", 1], ["-", 2], ["-", 3], ["", 2], ["--", 3], ["a--", 3], ["b--", 3]],
+    ]
+    for qs in corpus_sessions:
+        out.append(dict(kind="gcseq", queries=qs, edits=["corpus"]))
+        out.append(dict(kind="gcseq", queries=[q + [i % 2] for i, q in enumerate(qs + qs)], edits=["corpus", "two-objects"]))
+    corpus_multi = [
+        # two users, one process: the same words under different nameplates (helper, then readline)
+        [["input"], ["h", "choosenp", "4"], ["gotwl"], ["h", "wc", "armistice-ba"], ["h", "wc", "article-ba"],
+         ["h", "choosewords", "article-banjo"], ["new"],
+         ["input"], ["gotnp", ["12", "4"]], ["rl", "tab", "12-"], ["rl", "tab", "12-armistice-ba"], ["rl", "tab", "12-article-ba"],
+         ["rl", "tab", "12-armistice-ba"], ["rl", "finish", "12-article-banjo"], ["new"],
+         ["input"], ["rl", "tab", "7-armistice-ba"], ["rl", "tab", "7-article-ba"], ["rl", "finish", "7-armistice-baboon"]],
+        # the demo of the seed: 4-ar, 4-armistice-ba, 4-article-ba, Return on the offered 4-article-banjo
+        [["input"], ["gotnp", ["4", "41"]], ["rl", "tab", "4"], ["rl", "tab", "4-"], ["rl", "tab", "4-ar"],
+         ["rl", "tab", "4-armistice-ba"], ["rl", "tab", "4-article-ba"], ["rl", "finish", "4-article-banjo"]],
+        [["input"], ["gotnp", ["4", "41"]], ["rl", "tab", "4-article-banjo-ar"], ["rl", "tab", "4-article-baboon-ar"],
+         ["rl", "finish", "4-article-baboon-armistice"]],
+        # allocations: odd, even, odd, … one client after the other
+        [["alloc", 3], ["connected"], ["rxalloc", "5", [1, 2, 3]], ["new"], ["connected"], ["alloc", 2], ["rxalloc", "6", [4, 5]], ["new"],
+         ["alloc", 1], ["connected"], ["rxalloc", "9", [6]], ["new"], ["alloc", 2], ["connected"], ["rxalloc", "10", [7, 8]], ["new"],
+         ["alloc", 4], ["connected"], ["rxalloc", "8", [9, 10, 11, 12]], ["new"], ["alloc", 0], ["connected"], ["rxalloc", "11", []]],
+    ]
+    for ops in corpus_multi:
+        out.append(dict(kind="api", ops=ops))
+    out.append(dict(kind="cwseq", nobj=2, calls=[[0, 2, [1, 2]], [1, 2, [3, 4]], [0, 3, [5, 6, 7]], [0, 2, [8, 9]], [1, 2, [10, 11]],
+                                                  [1, 1, [12]], [0, 4, [13, 14, 15, 16]], [1, 1, [17]], [0, 2, [18, 19]], [1, 0, []], [0, 5, [1, 2, 3, 4, 5]],
+                                                  [1, 2, [20, 21]]]))
     out.append(dict(kind="np", strs=NAMEPLATES))
     out.append(dict(kind="vc", strs=[np + t for np in ["4", "4\n", "", "٣", "4 ", "x"] for t in WORDS_TAILS]))
     for n in [0, 1, 2, 3, 4, 5, 16, 20]:
@@ -506,6 +758,16 @@ def cases(rng, tier):
         elif r < 0.6:
             ops.insert(0, ["alloc", rng.choice([1, 2, 3])])
         out.append(dict(kind="api", ops=ops))
+    # sessions (appended after the older streams so that those keep their random choices)
+    for _ in range(60 * k):
+        out.append(gc_edit_case(rng))
+    for _ in range(50 * k):
+        out.append(dict(kind="api", ops=input_edit_session(rng)))
+    for _ in range(25 * k):
+        out.append(dict(kind="api", ops=multi_client_sessions(rng)))
+    for _ in range(12 * k):
+        out.append(dict(kind="api", ops=alloc_sessions(rng)))
+        out.append(cw_session(rng))
     if tier == "thorough":
         # small-scope exhaustive: every ordered triple of code-start calls (good/bad set_code), and every
         # helper-call pair after each phase of input
@@ -546,6 +808,14 @@ def cases(rng, tier):
         for i in range(0, len(qs), 12):
             out.append(dict(kind="api", ops=[["input"], ["h", "choosenp", "4"], ["gotwl"]] + [["h", "wc", q] for q in qs[i:i + 12]]))
             out.append(dict(kind="api", ops=[["input"]] + [["rl", "tab", "4-" + q] for q in qs[i:i + 12]]))
+        # sessions: every one-letter partial word, at every word position 1-4, with every earlier word replaced in turn
+        # (by any word, and by one of the same length), on one wordlist object
+        import string as _s2
+        for kk in (1, 2, 3, 4):
+            for j in range(kk):
+                for a in _s2.ascii_lowercase:
+                    out.append(dict(kind="gcseq", queries=earlier_word_session(kk, j, a, 2, variant=3, same_len=(ord(a) % 2 == 0)),
+                                    edits=["earlier-word"]))
         # every 1- and 2-letter prefix, first and second word
         import string
         for a in string.ascii_lowercase:
@@ -560,7 +830,30 @@ def cases(rng, tier):
 # ---------------------------------------------------------------------------
 # running a case on the real code
 
+_RUN_LOG = []          # the top-level cases run in this process, in order (for a self-contained replay, see `shrink`)
+_LOG_OPEN = True
+
+
 def run_case(case):
+    if case.get("kind") == "seq":
+        # several cases one after the other in ONE process (what the check itself does); the model starts afresh for each
+        lines, exp, viol, tags = [], [], [], set()
+        for i, sub in enumerate(case["cases"]):
+            r = _run_case(sub)
+            if i:
+                lines.append("new")
+                exp.append("ok")
+            lines += r.lines
+            exp += r.expect
+            viol += r.violations
+            tags |= set(r.tags)
+        return Result(lines, exp, viol[:5], sorted(tags) + ["seq"])
+    if _LOG_OPEN:
+        _RUN_LOG.append(case)
+    return _run_case(case)
+
+
+def _run_case(case):
     k = case["kind"]
     if k == "tables":
         return run_tables()
@@ -593,14 +886,17 @@ def run_case(case):
         words, fd = with_urandom(data, lambda: PGPWordList().choose_words(n))
         return Result([f"cw {n} {hx(bytes(data))}"], [hs(words)], words_violations(n, data, fd, words), ["cw:%d" % min(n, 5)])
     if k == "gcseq":
-        wl = PGPWordList()      # one instance for the whole interactive session, as Input holds it
-        lines, exp, viol = [], [], []
-        for p, nw in case["queries"]:
-            got = wl.get_completions(p, nw)
-            lines.append(f"gc {nw} {hs(p)}")
-            exp.append(hl(got))
-            viol += completion_violations(p, nw, got)
-        return Result(lines, exp, viol, ["gcseq:%d" % len(case["queries"])])
+        return run_gcseq(case)
+    if k == "cwseq":
+        wls = [PGPWordList() for _ in range(case["nobj"])]
+        lines, exp, viol, par = [], [], [], set()
+        for obj, n, data in case["calls"]:
+            words, fd = with_urandom(data, lambda: wls[obj].choose_words(n))
+            lines.append(f"cw {n} {hx(bytes(data))}")
+            exp.append(hs(words))
+            viol += words_violations(n, data, fd, words)
+            par.add("odd" if n % 2 else "even")
+        return Result(lines, exp, viol[:5], ["cwseq:objects=%d" % case["nobj"], "cwseq:lengths=" + "+".join(sorted(par))])
     if k == "gc":
         p, nw = case["pfx"], case["num_words"]
         got = PGPWordList().get_completions(p, nw)
@@ -611,6 +907,52 @@ def run_case(case):
     if k == "xfer":
         return run_xfer(case)
     raise ValueError(k)
+
+
+def run_gcseq(case):
+    """queries [prefix, num_words] (or [prefix, num_words, object]) put to wordlist objects that live for the whole case, as
+    Input holds one for a whole interactive session.  EVERY answer is judged and compared, not only first ones."""
+    queries = [q if len(q) == 3 else [q[0], q[1], 0] for q in case["queries"]]
+    wls = {}
+    asked = {}
+    lines, exp, viol, tags = [], [], [], set()
+    for p, nw, obj in queries:
+        wl = wls.setdefault(obj, PGPWordList())
+        got = wl.get_completions(p, nw)
+        lines.append(f"gc {nw} {hs(p)}")
+        exp.append(hl(got))
+        viol += completion_violations(p, nw, got)
+        # what this query has in common with earlier ones of the session (what a lossy memo key would confuse)
+        count, last = p.count("-"), p.rsplit("-", 1)[-1]
+        for obj2, hist in asked.items():
+            where = "" if obj2 == obj else "other-object:"
+            for p2, nw2, _ in hist:
+                c2, l2 = p2.count("-"), p2.rsplit("-", 1)[-1]
+                if p2 == p and nw2 == nw:
+                    tags.add("gcseq:" + where + "repeat")
+                elif p2 == p:
+                    tags.add("gcseq:" + where + "same-text-other-num-words")
+                else:
+                    if c2 == count and l2 == last:
+                        tags.add("gcseq:" + where + "same-position-and-partial-other-earlier-word@%d" % min(count, 4))
+                    if len(p2) == len(p):
+                        tags.add("gcseq:" + where + "same-length-other-text")
+                    if l2 == last and c2 != count:
+                        tags.add("gcseq:" + where + "same-partial-other-position")
+                    if p2.lower() == p.lower():
+                        tags.add("gcseq:" + where + "same-text-other-case")
+                    if "-" in p and "-" in p2 and p2.split("-", 1)[1] == p.split("-", 1)[1]:
+                        tags.add("gcseq:" + where + "same-tail-other-first-word")
+        asked.setdefault(obj, []).append((p, nw, hl(got)))
+    for obj in sorted(asked):
+        # the whole session of one object as ONE model call (gcSession)
+        lines.append("gcs " + ",".join(f"{nw}:{hs(p)}" for p, nw, _ in asked[obj]))
+        exp.append(";".join(a for _, _, a in asked[obj]))
+    tags.add("gcseq:%d" % min(len(queries), 8))
+    tags.add("gcseq:objects=%d" % len(asked))
+    for e in case.get("edits", []):
+        tags.add("gcseq:edit=" + e)
+    return Result(lines, exp, viol[:5], sorted(tags))
 
 
 def run_tables():
@@ -720,13 +1062,50 @@ def run_api(case):
 
     ci = CodeInputter(helper, None)
     ci.bcft = bcft
+    client = 0               # `new` starts another client in the same process
+    asked = []               # (client, front, words text) of every completion query that was answered
 
     def V(sig, msg):
         if len(viol) < 5:
             viol.append((sig, msg))
 
+    def session_tags(front, words):
+        """what this query shares with earlier ones (of this client: same wordlist object; of earlier clients: same process)"""
+        count, last = words.count("-"), words.rsplit("-", 1)[-1]
+        for cl2, _, w2 in asked:
+            where = "" if cl2 == client else "other-client:"
+            c2, l2 = w2.count("-"), w2.rsplit("-", 1)[-1]
+            if w2 == words:
+                tags.append(f"sess:{front}:{where}repeat")
+            else:
+                if c2 == count and l2 == last:
+                    tags.append(f"sess:{front}:{where}same-position-and-partial-other-earlier-word@{min(count, 4)}")
+                if len(w2) == len(words):
+                    tags.append(f"sess:{front}:{where}same-length-other-text")
+                if l2 == last and c2 != count:
+                    tags.append(f"sess:{front}:{where}same-partial-other-position")
+                if w2.lower() == words.lower():
+                    tags.append(f"sess:{front}:{where}same-text-other-case")
+        asked.append((client, front, words))
+
     for op in case["ops"]:
         kind = op[0]
+        if kind == "new":
+            # a fresh client in the same process: new Boss / Code / Allocator / Input / Helper / CodeInputter, and the
+            # oracle's bookkeeping starts again; whatever the classes or modules remember stays
+            tags.append("route:" + str(accepted))
+            events = []
+            b = build(events)
+            helper = Helper(b._I)
+            ci = CodeInputter(helper, None)
+            ci.bcft = bcft
+            accepted, n_accepted, alloc_n, phase, chosen_np = None, 0, None, None, None
+            known_nps, have_wordlist, codes, rl_committed = set(), False, [], None
+            client += 1
+            lines.append("new")
+            exp.append("ok")
+            tags.append("op:new")
+            continue
         mark = len(events)
         fd = None
         ret = None
@@ -899,6 +1278,7 @@ def run_api(case):
                     if wl_known and typed_np is not None and (rl_committed in (None, typed_np)):
                         words = text.split("-", 1)[1]
                         stripped = [c_[len(typed_np) + 1:] for c_ in ret if c_.startswith(typed_np + "-")]
+                        session_tags("rl", words)
                         if len(stripped) != len(ret):
                             V("completion-unacceptable", f"TAB on {text!r} offers {ret[:3]}: not under nameplate {typed_np!r}")
                         for v in completion_violations(words, 2, set(stripped)):
@@ -976,6 +1356,7 @@ def run_api(case):
                     if ret:
                         V("completion-unacceptable", f"completions {sorted(ret)[:3]} offered before the wordlist is known")
                 else:
+                    session_tags("helper", op[2])
                     for v in completion_violations(op[2], 2, ret):
                         V(*v)
             elif hk == "choosewords":
@@ -992,6 +1373,8 @@ def run_api(case):
                     else:
                         phase = "done"
     tags.append("route:" + str(accepted))
+    if client:
+        tags.append("clients:%d" % min(client + 1, 4))
     return Result(lines, exp, viol, sorted(set(tags)))
 
 
@@ -1147,12 +1530,105 @@ def search(rng, seconds, seeds):
                 return
 
 
-def shrink(case):
+def fresh_signatures(case, timeout=60):
+    """the oracle's verdict on `case` in a FRESH interpreter (same implementation: the environment is inherited): what a
+    replay of the case alone will show.  None = could not be run."""
+    import json, os, subprocess, sys
+    root = os.path.dirname(os.path.dirname(os.path.dirname(os.path.abspath(__file__))))
+    code = ("import json,sys; from harness.props import c19; r=c19.run_case(json.load(sys.stdin)); "
+            "print('SIGS='+json.dumps([s for s,_ in r.violations]))")
+    try:
+        r = subprocess.run([sys.executable, "-c", code], input=json.dumps(case), capture_output=True, text=True, cwd=root,
+                           timeout=timeout)
+    except Exception:
+        return None
+    for ln in r.stdout.splitlines():
+        if ln.startswith("SIGS="):
+            return json.loads(ln[5:])
+    return None
+
+
+def _shrink_plain(case):
     if case.get("kind") == "api":
         ops = case["ops"]
+        # whole clients first, then single calls
+        cuts = [i for i, op in enumerate(ops) if op == ["new"]]
+        bounds = [-1] + cuts + [len(ops)]
+        if cuts:
+            for a, b_ in zip(bounds, bounds[1:]):
+                rest = ops[:max(a, 0)] + ops[b_ + (1 if a < 0 else 0):]
+                if rest and rest != ops:
+                    yield dict(kind="api", ops=rest)
         for i in range(len(ops)):
             yield dict(kind="api", ops=ops[:i] + ops[i + 1:])
     if case.get("kind") in ("np", "vc"):
         for s in case["strs"]:
             if len(case["strs"]) > 1:
                 yield dict(kind=case["kind"], strs=[s])
+    if case.get("kind") == "gcseq":
+        qs = case["queries"]
+        for i in range(len(qs)):
+            if len(qs) > 1:
+                yield dict(kind="gcseq", queries=qs[:i] + qs[i + 1:], edits=case.get("edits", []))
+    if case.get("kind") == "cwseq":
+        cs = case["calls"]
+        for i in range(len(cs)):
+            if len(cs) > 1:
+                yield dict(kind="cwseq", nobj=case["nobj"], calls=cs[:i] + cs[i + 1:])
+    if case.get("kind") == "seq":
+        cs = case["cases"]
+        for i in range(len(cs)):
+            if len(cs) > 1:
+                yield dict(kind="seq", cases=cs[:i] + cs[i + 1:])
+        if len(cs) == 1:
+            yield cs[0]
+
+
+def shrink(case):
+    """Smaller candidates — but only ones that fail when run ALONE in a fresh interpreter.  An implementation that keeps
+    state in a class or a module makes everything after the first few cases of this process fail; a case shrunk against
+    that background (or first noticed against it) would not replay.  If `case` itself does not fail alone, the candidate
+    is the run of this process so far, cut down (in fresh interpreters) to the cases that are needed."""
+    import time
+    global _LOG_OPEN
+    t0 = time.time()
+    log = list(_RUN_LOG) if _LOG_OPEN else []
+    _LOG_OPEN = False
+    alone = fresh_signatures(case)
+    if alone is None:
+        # no second interpreter to be had: shrink in this one
+        yield from _shrink_plain(case)
+        return
+    if not alone and case.get("kind") != "seq":
+        hist = []
+        for c in log:
+            if c is case or c == case:
+                break
+            if c.get("kind") != "nd":           # (only exercises `re`)
+                hist.append(c)
+        cur = hist + [case]
+        if not fresh_signatures(dict(kind="seq", cases=cur), timeout=120):
+            return
+        # ddmin over the history (the failing case stays last)
+        n = 2
+        while len(cur) > 2 and time.time() - t0 < 40:
+            h = cur[:-1]
+            size = max(1, len(h) // n)
+            for i in range(0, len(h), size):
+                cand = h[:i] + h[i + size:] + [case]
+                if fresh_signatures(dict(kind="seq", cases=cand)):
+                    cur, n = cand, max(n - 1, 2)
+                    break
+                if time.time() - t0 > 40:
+                    break
+            else:
+                if size == 1:
+                    break
+                n = min(n * 2, len(h))
+        yield dict(kind="seq", cases=cur)
+        return
+    for cand in _shrink_plain(case):
+        if time.time() - t0 > 12:
+            return
+        if fresh_signatures(cand):
+            yield cand
